@@ -23,7 +23,13 @@ CONSTANTS SerMode        \* "faithful" | "coded"
 
 ----------------------------------------------------------------------------
 (* type terms *)
-Base == { <<"int">>, <<"float">>, <<"byte">>, <<"char">>, <<"str">>, <<"bool">>, <<"unit">>, <<"rec">>, <<"en">> }
+Base == { <<"int">>, <<"float">>, <<"byte">>, <<"char">>, <<"str">>, <<"bool">>, <<"unit">>, <<"rec">>, <<"en">>, <<"rec2">>, <<"en2">> }
+(* rec  : Rust struct Rec { n, s, v } for the Gluon type { n : Int, s : String, v : Array Int }  (same order)
+   rec2 : Rust struct Rec2 { a, b }   for the Gluon type { b : String, a : Int }                  (other order)
+   en   : Rust enum En { Unit, One(i64), Two(String, f64) }
+   en2  : Rust enum En2 { Dot, Rect { width, height }, Label { id, text } } for the Gluon type
+          | Dot | Rect { height : Int, width : Int } | Label { text : String, id : Int }         (fields in another order)
+   Compiled Gluon code reads record fields at the offsets of the Gluon type, so the order of the Gluon type decides. *)
 Core == { <<"int">>, <<"str">>, <<"float">> }
 Opt(t) == <<"opt", t>>
 Vec(t) == <<"vec", t>>
@@ -67,6 +73,11 @@ Vals(t) ==
       [] k = "en"   -> << <<"en", 0, <<>> >>, <<"en", 1, << <<"int", "max">> >> >>,
                           <<"en", 2, << <<"str", "multibyte">>, <<"float", "nan">> >> >>,
                           <<"en", 2, << <<"str", "empty">>, <<"float", "-0.0">> >> >> >>
+      [] k = "rec2" -> << <<"rec2", <<"int", "1">>, <<"str", "a">> >>, <<"rec2", <<"int", "min">>, <<"str", "multibyte">> >>,
+                          <<"rec2", <<"int", "0">>, <<"str", "empty">> >> >>
+      [] k = "en2"  -> << <<"en2", 0, <<>> >>, <<"en2", 1, << <<"int", "1">>, <<"int", "max">> >> >>,    \* Rect: width, height
+                          <<"en2", 1, << <<"int", "63">>, <<"int", "63">> >> >>,
+                          <<"en2", 2, << <<"int", "-1">>, <<"str", "multibyte">> >> >> >>                 \* Label: id, text
       [] k = "opt"  -> << <<"none">> >> \o SeqMap(LAMBDA v : <<"some", v>>, Vals(t[2]))
       [] k = "res"  -> SeqMap(LAMBDA v : <<"ok", v>>, Take(Vals(t[2]), 4)) \o SeqMap(LAMBDA v : <<"err", v>>, Take(Vals(t[3]), 3))
       [] k = "vec"  -> LET vs == Vals(t[2]) IN
@@ -95,6 +106,10 @@ Rep(t, v) ==
       [] k = "en"    -> IF v[2] = 0 THEN <<"Tag", 0>>
                         ELSE IF v[2] = 1 THEN <<"Data", 1, << Rep(<<"int">>, v[3][1]) >> >>
                         ELSE <<"Data", 2, << Rep(<<"str">>, v[3][1]), Rep(<<"float">>, v[3][2]) >> >>
+      [] k = "rec2"  -> <<"Data", 0, << Rep(<<"str">>, v[3]), Rep(<<"int">>, v[2]) >> >>                  \* b, a
+      [] k = "en2"   -> IF v[2] = 0 THEN <<"Tag", 0>>
+                        ELSE IF v[2] = 1 THEN <<"Data", 1, << <<"Data", 0, << Rep(<<"int">>, v[3][2]), Rep(<<"int">>, v[3][1]) >> >> >> >>   \* height, width
+                        ELSE <<"Data", 2, << <<"Data", 0, << Rep(<<"str">>, v[3][2]), Rep(<<"int">>, v[3][1]) >> >> >> >>               \* text, id
       [] k = "opt"   -> IF v[1] = "none" THEN <<"Tag", 0>> ELSE <<"Data", 1, << Rep(t[2], v[2]) >> >>
       [] k = "res"   -> IF v[1] = "ok" THEN <<"Data", 1, << Rep(t[2], v[2]) >> >> ELSE <<"Data", 0, << Rep(t[3], v[2]) >> >>
       [] k = "vec"   -> <<"Array", SeqMap(LAMBDA x : Rep(t[2], x), v[2])>>
@@ -118,6 +133,10 @@ SerRep(t, v) ==
       [] k = "en"    -> IF v[2] = 0 THEN <<"Tag", 0>>
                         ELSE IF v[2] = 1 THEN <<"Data", 1, << SerRep(<<"int">>, v[3][1]) >> >>
                         ELSE <<"Data", 2, << SerRep(<<"str">>, v[3][1]), SerRep(<<"float">>, v[3][2]) >> >>
+      [] k = "rec2"  -> <<"Data", 0, << SerRep(<<"int">>, v[2]), SerRep(<<"str">>, v[3]) >> >>           \* Rust order: a, b
+      [] k = "en2"   -> IF v[2] = 0 THEN <<"Tag", 0>>
+                        ELSE <<"Data", v[2], << <<"Data", 0, << SerRep(IF v[2] = 1 THEN <<"int">> ELSE <<"int">>, v[3][1]),
+                                                               SerRep(IF v[2] = 1 THEN <<"int">> ELSE <<"str">>, v[3][2]) >> >> >> >>
       [] k = "opt"   -> IF v[1] = "none" THEN <<"Tag", 0>> ELSE SerRep(t[2], v[2])       \* Some x is pushed as x
       [] k = "res"   -> IF v[1] = "ok" THEN <<"Data", 0, << SerRep(t[2], v[2]) >> >>     \* serde's own variant indices
                         ELSE <<"Data", 1, << SerRep(t[3], v[2]) >> >>
@@ -133,7 +152,7 @@ GType(t) ==
     LET k == t[1] IN
     CASE k = "int" -> "Int" [] k = "float" -> "Float" [] k = "byte" -> "Byte" [] k = "char" -> "Char"
       [] k = "str" -> "String" [] k = "bool" -> "Bool" [] k = "unit" -> "()"
-      [] k = "rec" -> "mtypes.Rec" [] k = "en" -> "mtypes.En"
+      [] k = "rec" -> "mtypes.Rec" [] k = "en" -> "mtypes.En" [] k = "rec2" -> "mtypes.Rec2" [] k = "en2" -> "mtypes.En2"
       [] k = "opt" -> "(Option " \o GType(t[2]) \o ")"
       [] k = "res" -> "(Result " \o GType(t[3]) \o " " \o GType(t[2]) \o ")"
       [] k = "vec" -> "(Array " \o GType(t[2]) \o ")"
@@ -143,7 +162,7 @@ GType(t) ==
 
 (* the globals of the driver module are monomorphic except `id : a -> a`; a request is granted iff the requested
    type is an instance of the global's type *)
-SigTypes == { <<"int">>, <<"float">>, <<"str">>, <<"byte">>, <<"char">>, <<"bool">>, <<"unit">>, <<"rec">>, <<"en">>,
+SigTypes == { <<"int">>, <<"float">>, <<"str">>, <<"byte">>, <<"char">>, <<"bool">>, <<"unit">>, <<"rec">>, <<"en">>, <<"rec2">>, <<"en2">>,
               Opt(<<"int">>), Opt(<<"str">>), Vec(<<"int">>), Vec(<<"str">>), Vec(<<"byte">>), Vec(<<"float">>),
               Res(<<"int">>, <<"str">>), Res(<<"str">>, <<"str">>), Tup(<<"int">>, <<"str">>), Tup(<<"str">>, <<"byte">>),
               MapT(<<"int">>), MapT(<<"str">>), Opt(Opt(<<"int">>)), Vec(Vec(<<"int">>)),
